@@ -439,12 +439,158 @@ def generate_uniq(repo):
     return '\n'.join(out) + '\n', info
 
 
+# ---------------------------------------------------------------------------------- median.py
+
+def mnorm(node):
+    """array.size / f.size -> size ; array.shape[k] -> nk ; iend[k] -> iendk"""
+    class F(ast.NodeTransformer):
+        def visit_Attribute(self, n):
+            if n.attr == 'size' and isinstance(n.value, ast.Name) and n.value.id in ('array', 'f'):
+                return ast.copy_location(ast.Name('size', ast.Load()), n)
+            return self.generic_visit(n)
+
+        def visit_Subscript(self, n):
+            if isinstance(n.value, ast.Attribute) and n.value.attr == 'shape' and is_name(n.value.value, 'array') \
+                    and isinstance(n.slice, ast.Constant) and n.slice.value in (0, 1):
+                return ast.copy_location(ast.Name('n%d' % n.slice.value, ast.Load()), n)
+            if is_name(n.value, 'iend') and isinstance(n.slice, ast.Constant) and n.slice.value in (0, 1):
+                return ast.copy_location(ast.Name('iend%d' % n.slice.value, ast.Load()), n)
+            return self.generic_visit(n)
+    return F().visit(node)
+
+
+def mz(node, names):
+    node = mnorm(node)
+    if isinstance(node, ast.Call) and is_name(node.func, 'min') and len(node.args) == 2:
+        return '(Z.min %s %s)' % (mz(node.args[0], names), mz(node.args[1], names))
+    return zexpr(node, {n: n for n in names})
+
+
+def mb(node, names, bools=()):
+    """boolean expression: compares joined by `or` / `|`, boolean names"""
+    node = mnorm(node)
+    if isinstance(node, ast.BoolOp) and isinstance(node.op, ast.Or):
+        return '(' + ' || '.join(mb(v, names, bools) for v in node.values) + ')'
+    if isinstance(node, ast.BinOp) and isinstance(node.op, ast.BitOr):
+        return '(%s || %s)' % (mb(node.left, names, bools), mb(node.right, names, bools))
+    if isinstance(node, ast.Name) and node.id in bools:
+        return node.id
+    return bexpr(node, {n: n for n in names})
+
+
+def is_ndim_test(t, k):
+    return isinstance(t, ast.Compare) and isinstance(t.left, ast.Attribute) and t.left.attr == 'ndim' \
+        and is_name(t.left.value, 'array') and isinstance(t.ops[0], ast.Eq) and P.const_value(t.comparators[0]) == k
+
+
+def generate_median(repo):
+    info = {'recognised': True, 'detail': []}
+    try:
+        src = open(os.path.join(repo, 'pydl/median.py')).read()
+        fn = P.find_function(ast.parse(src), 'median')
+        body = [s for s in fn.body if not (isinstance(s, ast.Expr) and isinstance(s.value, ast.Constant))
+                and not isinstance(s, (ast.Import, ast.ImportFrom))]
+        out = ['(* GENERATED by translate/c14.py from pydl/median.py -- do not edit *)',
+               'From Coq Require Import ZArith Bool.', 'Open Scope Z_scope.', '']
+        top = body[0]
+        t = top.test
+        if not (len(body) == 1 and isinstance(top, ast.If) and isinstance(t, ast.Compare) and is_name(t.left, 'width')
+                and isinstance(t.ops[0], ast.Is) and t.comparators[0].value is None):
+            raise P.Unrecognised('`if width is None` expected')
+        # ---- no width
+        ax = top.body[0]
+        if not (len(top.body) == 1 and isinstance(ax, ast.If) and is_name(ax.test.left, 'axis')
+                and isinstance(ax.test.ops[0], ast.Is)):
+            raise P.Unrecognised('`if axis is None` expected')
+        fl = assign_of(ax.body[0], 'f')
+        if not (isinstance(fl, ast.Call) and isinstance(fl.func, ast.Attribute) and fl.func.attr == 'flatten'):
+            raise P.Unrecognised('f = array.flatten() expected')
+        ev = ax.body[1]
+        np_med = lambda r: isinstance(r, ast.Return) and isinstance(r.value, ast.Call) \
+            and isinstance(r.value.func, ast.Attribute) and r.value.func.attr == 'median'
+        if not (isinstance(ev, ast.If) and len(ev.body) == 1 and np_med(ev.body[0]) and len(ev.orelse) == 2):
+            raise P.Unrecognised('even/odd rule: if ...: return np.median(array) else: argsort pick')
+        out.append('Definition median_uses_npmedian (size : Z) (even : bool) : bool := %s.' % mb(ev.test, ['size'], ('even',)))
+        srt = assign_of(ev.orelse[0], 'i')
+        if not (isinstance(srt, ast.Call) and isinstance(srt.func, ast.Attribute) and srt.func.attr == 'argsort'
+                and is_name(srt.func.value, 'f')):
+            raise P.Unrecognised('i = f.argsort() expected')
+        r = ev.orelse[1]
+        ok = isinstance(r, ast.Return) and isinstance(r.value, ast.Subscript) and is_name(r.value.value, 'f') \
+            and isinstance(r.value.slice, ast.Subscript) and is_name(r.value.slice.value, 'i')
+        if not ok:
+            raise P.Unrecognised('return f[i[...]] expected')
+        out.append('Definition median_pick_rank (size : Z) : Z := %s.' % mz(r.value.slice.slice, ['size']))
+        axr = ax.orelse
+        if not (len(axr) == 1 and np_med(axr[0]) and any(k.arg == 'axis' and is_name(k.value, 'axis') for k in axr[0].value.keywords)):
+            raise P.Unrecognised('return np.median(array, axis=axis) expected')
+        out.append('')
+        # ---- width
+        d1 = top.orelse[0]
+        if not (len(top.orelse) == 1 and isinstance(d1, ast.If) and is_ndim_test(d1.test, 1) and len(d1.orelse) == 1
+                and isinstance(d1.orelse[0], ast.If) and is_ndim_test(d1.orelse[0].test, 2)
+                and len(d1.orelse[0].orelse) == 1 and isinstance(d1.orelse[0].orelse[0], ast.Raise)
+                and is_name(d1.orelse[0].orelse[0].exc.func, 'ValueError')):
+            raise P.Unrecognised('ndim == 1 / ndim == 2 / raise ValueError expected')
+        b1, b2 = d1.body, d1.orelse[0].body
+
+        def kernel(st, fname):
+            v = assign_of(st, 'medarray')
+            if not (isinstance(v, ast.Call) and is_name(v.func, fname) and len(v.args) == 2 and is_name(v.args[0], 'array')):
+                raise P.Unrecognised('medarray = %s(array, kernel) expected' % fname)
+            return mz(v.args[1], ['width', 'size'])
+
+        def same_sub(st, text):
+            return isinstance(st, ast.Assign) and ast.unparse(st.targets[0]) == 'medarray[%s]' % text \
+                and ast.unparse(st.value) == 'array[%s]' % text
+        # 1-D
+        if len(b1) != 7:
+            raise P.Unrecognised('1-D branch: 7 statements expected')
+        out.append('Definition medfilt1_kernel (width size : Z) : Z := %s.' % kernel(b1[0], 'medfilt'))
+        out.append('Definition medfilt1_istart (width size : Z) : Z := %s.' % mz(assign_of(b1[1], 'istart'), ['width', 'size']))
+        out.append('Definition medfilt1_iend (width size : Z) : Z := %s.' % mz(assign_of(b1[2], 'iend'), ['width', 'size']))
+        if ast.unparse(assign_of(b1[3], 'i')) != 'np.arange(array.size)':
+            raise P.Unrecognised('i = np.arange(array.size) expected')
+        out.append('Definition medfilt1_edge (i istart iend : Z) : bool := %s.' % mb(assign_of(b1[4], 'w'), ['i', 'istart', 'iend']))
+        if not (same_sub(b1[5], 'w') and isinstance(b1[6], ast.Return) and is_name(b1[6].value, 'medarray')):
+            raise P.Unrecognised('medarray[w] = array[w]; return medarray expected')
+        out.append('')
+        # 2-D
+        if len(b2) != 9:
+            raise P.Unrecognised('2-D branch: 9 statements expected')
+        out.append('Definition medfilt2_kernel (width size : Z) : Z := %s.' % kernel(b2[0], 'medfilt2d'))
+        out.append('Definition medfilt2_istart (width n0 n1 : Z) : Z := %s.' % mz(assign_of(b2[1], 'istart'), ['width', 'n0', 'n1']))
+        ie = assign_of(b2[2], 'iend')
+        if not (isinstance(ie, ast.Tuple) and len(ie.elts) == 2):
+            raise P.Unrecognised('iend = (.., ..) expected')
+        out.append('Definition medfilt2_iend0 (width n0 n1 : Z) : Z := %s.' % mz(ie.elts[0], ['width', 'n0', 'n1']))
+        out.append('Definition medfilt2_iend1 (width n0 n1 : Z) : Z := %s.' % mz(ie.elts[1], ['width', 'n0', 'n1']))
+        if ast.unparse(assign_of(b2[3], 'i')) != 'np.arange(array.shape[0])' or ast.unparse(assign_of(b2[4], 'j')) != 'np.arange(array.shape[1])':
+            raise P.Unrecognised('i, j = np.arange(array.shape[0/1]) expected')
+        w = assign_of(b2[5], 'w')
+        if not (isinstance(w, ast.Tuple) and len(w.elts) == 2):
+            raise P.Unrecognised('w = (rows, cols) expected')
+        names = ['i', 'j', 'istart', 'iend0', 'iend1']
+        out.append('Definition medfilt2_edge_row (i j istart iend0 iend1 : Z) : bool := %s.' % mb(w.elts[0], names))
+        out.append('Definition medfilt2_edge_col (i j istart iend0 iend1 : Z) : bool := %s.' % mb(w.elts[1], names))
+        if not (same_sub(b2[6], 'w[0], :') and same_sub(b2[7], ':, w[1]') and isinstance(b2[8], ast.Return)
+                and is_name(b2[8].value, 'medarray')):
+            raise P.Unrecognised('edge rows / edge columns restore + return medarray expected')
+        out.append('')
+        out.append('Definition median_recognised : bool := true.')
+    except (P.Unrecognised, SyntaxError, IndexError, OSError, KeyError, AttributeError, TypeError) as e:
+        info['recognised'] = False
+        info['detail'].append('%s: %s' % (type(e).__name__, e))
+        return None, info
+    return '\n'.join(out) + '\n', info
+
+
 if __name__ == '__main__':
     import sys
     text, info = generate(sys.argv[1] if len(sys.argv) > 1 else '/repo')
     print(info)
     print(text)
-    for g in (generate_rebin, generate_uniq):
+    for g in (generate_rebin, generate_uniq, generate_median):
         text, info = g(sys.argv[1] if len(sys.argv) > 1 else '/repo')
         print(info)
         print(text)
